@@ -3,12 +3,17 @@
 #![allow(dead_code)]
 
 mod common;
+mod corpus;
 mod dataset;
 mod engine;
 mod graph_adapter;
 mod props;
+mod qast;
+mod qgen;
+mod reference;
 mod schema_model;
 mod values;
+mod wrappers;
 
 use common::{machinery, Ctx, Tier};
 
